@@ -41,6 +41,14 @@ def payload_for(rng, tag):
 def gen_cases(rng, n):
     cases = []
     k = 0
+    # the first injections of the process climb a length ladder (<= 255, <= 65535, > 65535 bytes, short again):
+    # each payload length class uses another length-prefixed opcode, and anything the encoders remember from an
+    # earlier, shorter payload must not leak into a later, longer one (seeded change C16 r5)
+    base = "import verif_sink; verif_sink.record(%d)"
+    for pad in (0, 300, 70000, 0, 255 - len(base % 3), 256 - len(base % 4)):
+        cases.append({"kind": KINDS[k % len(KINDS)], "oseed": 7000 + k, "payload": (base % k) + " " * pad,
+                      "tag": k, "overwrite": bool(k % 2), "out_exists": False})
+        k += 1
     # every kind x both overwrite settings first, then random combinations
     for kind in KINDS:
         for ov in (False, True):
